@@ -39,7 +39,8 @@ def field_desc(draw, lo=1, hi=6, off=9, min_size=1):
 
 
 def mk(fd):
-    return Field(data=fd["data"], offset=list(fd["offset"]))
+    lay = ["C", "F", "strided", "reversed", "transposed_view"][(fd["data"].shape[0] + 3 * fd["data"].shape[1] + int(fd["offset"][0])) % 5]
+    return Field(data=gen.relayout(fd["data"], lay), offset=list(fd["offset"]))
 
 
 def render(field):
